@@ -310,11 +310,20 @@ def check(pid, tier, runs=None, workers=None, quiet=False):
         path = write_replay(pid, seed, ex['run'], small, v2, original_ops=ex['trace'])
         ok, msg = verify_replay(path)
         note = ''
-        if not ok and getattr(prop, 'HASHSEED_IS_VIOLATION', False):
+        if not ok:
             ok, msg2 = verify_replay(path, hashseed=0)
             if ok:
-                note = ('  note: reproduces under PYTHONHASHSEED=0 but not under 977: the result depends on '
+                note = ('  note: reproduces under PYTHONHASHSEED=0 but not under 977: the behaviour depends on '
                         'the hash seed (replay with VSIM_HASHSEED=0)')
+        if not ok:
+            # the violation may depend on process-global state left behind by earlier runs of the
+            # same worker (a history of calls in one process): replay that history, minimised
+            seq = sequence_replay(prop, pid, tier, seed, ex['run'], workers, v.sig)
+            if seq is not None:
+                path = seq
+                ok = True
+                note = ('  note: the run alone does not fail in a fresh interpreter; it fails after the listed earlier '
+                        'runs in the same process (state kept between calls) - the replay file holds that run sequence')
         if not ok:
             print(f'HARNESS-FAILURE: minimised trace {path} did not reproduce in a fresh '
                   f'interpreter under another hash seed: {msg}')
@@ -394,11 +403,88 @@ def verify_replay(path, hashseed=977):
     return False, f'exit={p.returncode} {p.stdout[-500:]} {p.stderr[-500:]}'
 
 
+def run_sequence(prop, seed, tier, runs, want):
+    """Execute planned runs one after the other in this process; the verdict is the last run's."""
+    last = None
+    for idx in runs:
+        last = execute(prop, plan_run(prop, seed, tier, idx))
+    return [v for v in (last.violations if last else []) if want is None or v.sig == want]
+
+
+def _seq_in_fresh(pid, tier, seed, runs, sig, hashseed=0, timeout=300):
+    e = dict(os.environ)
+    e['PYTHONHASHSEED'] = str(hashseed)
+    e['PYTHONDONTWRITEBYTECODE'] = '1'
+    e['PYTHONIOENCODING'] = 'utf-8'
+    try:
+        p = subprocess.run([sys.executable, '-B', MAIN, '_seq', '--prop', pid, '--tier', tier, '--seed', str(seed),
+                            '--runs', ','.join(map(str, runs)), '--sig', sig], env=e, capture_output=True, text=True,
+                           timeout=timeout, cwd=env.VERIF_DIR)
+    except subprocess.TimeoutExpired:
+        return False
+    return p.returncode == 1
+
+
+def sequence_replay(prop, pid, tier, seed, run, workers, sig, budget_s=120):
+    history = list(range(run % workers, run + 1, workers))
+    if len(history) < 2 or not _seq_in_fresh(pid, tier, seed, history, sig):
+        return None
+    t_end = time.time() + budget_s
+    prefix = history[:-1]
+    improved = True
+    while improved and time.time() < t_end:
+        improved = False
+        for keep in minimise.ddmin_list(prefix):
+            if time.time() >= t_end:
+                break
+            if _seq_in_fresh(pid, tier, seed, keep + [run], sig):
+                prefix = keep
+                improved = True
+                break
+    d = os.path.join(env.VERIF_DIR, 'replays')
+    os.makedirs(d, exist_ok=True)
+    path = os.path.join(d, f'{pid}-{seed}-{run}-sequence.json')
+    with open(path, 'w') as fh:
+        json.dump({'property': pid, 'seed': seed, 'tier': tier, 'signature': sig, 'sequence': prefix + [run],
+                   'penman_tree': env.tree_hash(),
+                   'traces': [plan_run(prop, seed, tier, i) for i in prefix + [run]]}, fh, indent=1, default=str)
+    return path
+
+
+def seq_main(a):
+    prop = load_prop(a.prop)
+    runs = [int(x) for x in a.runs.split(',') if x]
+    hit = run_sequence(prop, a.seed, a.tier, runs, a.sig or None)
+    for v in hit:
+        print(f'  violation oracle={v.oracle} class={v.cls}')
+        print('    ' + digest.dumps(v.detail)[:3000])
+    if hit:
+        print(f'VIOLATION property={a.prop} replay=(sequence {runs})')
+        return 1
+    print('sequence: the violation did not occur')
+    return 0
+
+
 def replay(path):
     with open(path) as fh:
         doc = json.load(fh)
     pid = doc['property']
     prop = load_prop(pid)
+    if 'sequence' in doc:
+        print(f'vsim replay: property={pid} run sequence {doc["sequence"]} (one process, in order)')
+        hit = []
+        last = None
+        for t in doc['traces']:
+            last = execute(prop, t)
+        hit = [v for v in last.violations if v.sig == doc.get('signature')]
+        for v in hit:
+            print(f'  violation oracle={v.oracle} class={v.cls}')
+            print('    ' + digest.dumps(v.detail)[:3000])
+        if hit:
+            print(f'VIOLATION property={pid} replay={path}')
+            return 1
+        print('replay: the recorded violation did not occur on this tree')
+        return 0
     trace = doc['trace']
     want = doc.get('signature')
     print(f'vsim replay: property={pid} seed={doc.get("seed")} run={doc.get("run")} '
